@@ -1,6 +1,6 @@
 (** Properties_C01.v — C01: the WebDAV file server behaves like the RFC 4918
     resource-tree model.  Statements only, each closed by [exact]. *)
-From GW Require Import Base GoPath Fs DavServer Rfc4918 FsProofs DavRefine DavCorollaries UploadSteps UploadStepsProofs CopySteps CopyStepsProofs SortedProofs.
+From GW Require Import Base GoPath Fs DavServer Rfc4918 FsProofs DavRefine DavCorollaries UploadSteps UploadStepsProofs CopySteps CopyStepsProofs SortedProofs CopyTempProofs.
 Local Open Scope list_scope.
 
 (** One request on any tree (any size, names, contents), any served root: the model
@@ -167,3 +167,17 @@ Theorem C01_content_type_cases : forall root sb r s c m,
   (t = ""%string -> registered_type r (rpath r) = ""%string -> r_ctype (snd (serve root sb r)) = sniffed r).
 Proof. exact content_type_cases. Qed.
 Print Assumptions C01_content_type_cases.
+
+(** The copy as the code performs it — into a temporary name next to the destination, then
+    os.RemoveAll(destination) and os.Rename — gives, at every path, the names, kinds and
+    bytes of the single step of [do_copy]. *)
+Theorem C01_copy_is_copy_via_temp : forall root sb r dst rec ow ss n ds cr tmp,
+  copy_move_checks root sb (rpath r) dst ow = GOk (ss, n, ds, cr) ->
+  sorted_tree n = true ->
+  geto sb (hp root (parent ds) ++ [tmp]) = None -> tmp <> last ds ""%string ->
+  let tmpp := hp root (parent ds) ++ [tmp] in
+  exists s2,
+    copy_via_temp sb (hp root ds) tmpp (stamp r) n rec None = (Some s2, true) /\
+    forall q, abs (Some s2) q = abs (fst (do_copy root sb r dst rec ow)) q.
+Proof. exact copy_is_copy_via_temp. Qed.
+Print Assumptions C01_copy_is_copy_via_temp.
